@@ -241,13 +241,13 @@ def _monitors(rep, extra, inconclusive, label, vic, tgts, secrets, wd, tracer, t
             if replay:
                 pick = ss
             for i, s in enumerate(pick):
-                jobs.append((t, [s], 'j%d' % i))
+                jobs.append((t, [s], 'j%03d' % i))
         else:
             cap = len(ss) if (thorough or t in CMP) else 24
             pick = ss[:cap]
             # chunks of ~12 secrets to use the cores
             for i in range(0, len(pick), 12):
-                jobs.append((t, pick[i:i + 12], 'j%d' % (i // 12)))
+                jobs.append((t, pick[i:i + 12], 'j%03d' % (i // 12)))
     with ThreadPoolExecutor(max_workers=R.NPROC) as ex:
         res1 = list(ex.map(lambda j: ptrace_chunk(tracer, vic, j[0], j[1], wd, j[2]), jobs))
     by_target = {}
@@ -269,13 +269,23 @@ def _monitors(rep, extra, inconclusive, label, vic, tgts, secrets, wd, tracer, t
             ref = groups[0]
             for (steps, h), members in groups[1:]:
                 name, hx = members[0]
-                # re-trace the pair with dumps to locate the first divergence
+                # Traces of different tracer processes are compared through their hashes; the memory layout of two processes can differ
+                # slightly (argument strings, number of secrets in the chunk), and libc routines such as memcpy choose their path by
+                # alignment.  A difference therefore counts only when it is CONFIRMED by re-tracing the two secrets inside one process,
+                # where nothing but the secret differs; the re-trace also locates the first diverging instruction.
                 rr = ptrace_chunk(tracer, vic, t, [('ref', bytes.fromhex(ref[1][0][1])), (name, bytes.fromhex(hx))], wd, 'diag', dump=True)
-                where = first_divergence(rr['dir'], 0, 1, vic) if not rr.get('inconclusive') else {}
+                if rr.get('inconclusive'):
+                    inconclusive.append('ptrace re-trace %s: %s' % (t, rr['inconclusive']))
+                    continue
+                same = rr['traces'][0][2:] == rr['traces'][1][2:]
+                where = first_divergence(rr['dir'], 0, 1, vic)
                 if rr.get('dir'):
                     shutil.rmtree(rr['dir'], ignore_errors=True)
+                if same:
+                    extra.setdefault('ptrace_cross_process_layout_differences_not_confirmed', []).append({'build': label, 'target': t, 'secret': name, 'steps': steps})
+                    continue
                 rep.violations.append(('ptrace', -1, 'C19:%s%s:pc-trace-depends-on-secret' % (t, sfx),
-                                       'secret %s: %d steps hash %s; reference %s: %d steps hash %s; first divergence %r' % (name, steps, h, ref[1][0][0], ref[0][0], ref[0][1], where),
+                                       'secret %s: %d steps hash %s; reference %s: %d steps hash %s; confirmed in one process, first divergence %r' % (name, steps, h, ref[1][0][0], ref[0][0], ref[0][1], where),
                                        '%s %s' % (t, hx), None))
                 rep.violations.append(('ptrace', -1, 'C19:%s%s:pc-trace-depends-on-secret' % (t, sfx), 'reference secret', '%s %s' % (t, ref[1][0][1]), None))
 
@@ -355,4 +365,4 @@ def run(tier, seed, replay=None):
             rep.write_evidence(extra, 0, inconclusive=True)
             print('INCONCLUSIVE property=C19 %s' % '; '.join(inconclusive)[:600])
             return 2
-    return rep.finish(FLOORS, extra)
+    return rep.finish(None if replay else FLOORS, extra)   # a replay re-runs a handful of cases: no floors
